@@ -131,6 +131,9 @@ func jobMethod(info *types.Info, call *ast.CallExpr, c *Callee) string {
 func (c *Ctx) sym(fr *Frame, call *ast.CallExpr, ce *Callee, args []Value) (string, bool) {
 	info := fr.Fn.Info()
 	R := c.R
+	if ce.Key != "" && ce.Key == c.jsonKey() {
+		return "json", true
+	}
 	switch ce.Key {
 	case kDequeue, kDequeueAck:
 		return "deq", true
@@ -417,6 +420,8 @@ func (c *Ctx) classifier(atomic map[string]bool, drop map[string]bool) func(fr *
 			ev.Results = []Value{{Kind: VTok, S: "deqval"}, {Kind: VTok, S: "deqok"}, {Kind: VTok, S: "ackid"}}
 		case "enq":
 			ev.Results = tok("enqok")
+		case "json":
+			ev.Results = []Value{{Kind: VTok, S: "jsonval"}, {Kind: VTok, S: "jsonerr"}}
 		case "isclosed":
 			if at {
 				ev.Results = tok("closed")
@@ -609,6 +614,19 @@ func (c *Ctx) vocab(keep []string, atomic map[string]bool) *vocab {
 	v := &vocab{c: c, keep: map[string]bool{}, atomic: atomic}
 	for _, k := range keep {
 		v.keep[k] = true
+	}
+	// a rule that records conditions on result tokens ("ackid=", "popped=nil", ...) needs the calls producing them
+	// to be seen even when they sit in a helper the rule has no other interest in
+	producers := map[string]string{"ackid": "deq", "deqval": "deq", "deqok": "deq", "enqok": "enq", "closed": "isclosed", "removed": "remove", "popped": "pop", "jsonerr": "json", "jsonval": "json"}
+	for _, k := range keep {
+		if i := strings.Index(k, "="); i > 0 {
+			if p := producers[k[:i]]; p != "" && !v.keep[p] {
+				if v.also == nil {
+					v.also = map[string]bool{}
+				}
+				v.also[p] = true
+			}
+		}
 	}
 	return v
 }
